@@ -98,6 +98,10 @@ static inline sv_t sv_substr(sv_t s, size_t pos, size_t n){
     __CPROVER_assert(i<=v->size,"vector::insert position valid (else UB)"); \
     __CPROVER_assert(v->size < (CAP),"capacity bound of the check exceeded"); \
     for(size_t k_=(CAP);k_>0;--k_){ if(k_-1>i && k_-1<=v->size) v->data[k_-1]=v->data[k_-2]; } v->data[i]=x; v->size=v->size+1; } \
+  static inline void NAME##_erase_range(NAME* v, size_t i, size_t j){ \
+    __CPROVER_assert(v->iter==0,"vector modified during range-for (iterator invalidation)"); \
+    __CPROVER_assert(i<=j && j<=v->size,"vector::erase(first,last) range valid (else UB)"); \
+    for(size_t k_=0;k_<(CAP);++k_){ if(k_>=i && k_+(j-i)<v->size) v->data[k_]=v->data[k_+(j-i)]; } v->size=v->size-(j-i); } \
   static inline void NAME##_resize(NAME* v, size_t n, T x){ \
     __CPROVER_assert(n <= (CAP),"capacity bound of the check exceeded"); \
     for(size_t k_=0;k_<(CAP);++k_){ if(k_>=v->size && k_<n) v->data[k_]=x; } v->size=n; }
